@@ -118,7 +118,7 @@ def q16(e0: bool, e1: bool, e2: bool, e3: bool, m0: int, m1: int, m2: int, m3: i
 
 QUERIES = [
     {"name": "Q16", "fn": q16,
-     "shards": {"quick": [{"shape": "chain3", "pi": k} for k in range(4)] + [{"shape": "fork3", "pi": 1}, {"shape": "join3", "pi": 0}, {"shape": "chain2+sink", "pi": 0}, {"shape": "chain2+sink", "pi": 1}],
+     "shards": {"quick": [{"shape": "chain3", "pi": k} for k in range(4)] + [{"shape": "fork3", "pi": 0}, {"shape": "fork3", "pi": 1}, {"shape": "join3", "pi": 0}, {"shape": "chain2+sink", "pi": 0}, {"shape": "chain2+sink", "pi": 1}],
                 "thorough": [{"shape": s, "pi": k} for s in ("chain3", "fork3", "join3", "diamond4", "two-ends", "chain2+sink") for k in range(len(PATS[s]))]},
      "timeout": {"quick": 1500, "thorough": 3600},
      "bound": "3 targets (chain with 4 selections, fork, join, chain ending in an output-less target; thorough adds diamond and two endpoints); existence and modification time (symbolic int <= start of the command) of every output and source, "
